@@ -34,6 +34,40 @@ def run(ctx):
         ctx.validate(trb, label='blk-' + name)
         if not srv.alive():
             srv.restart()
+    # the selected database inside ONE write: SELECT outside and inside MULTI / EXEC / DISCARD with commands behind it in the same batch
+    # (whatever a batch caches about its connection must follow), whole and cut in two; the server-side log gives what was executed
+    import props.c05 as c05
+    trp = ctx.new_trace('pipes')
+    s0 = Session(srv, trp)
+    c0 = s0.open(); s0.cmd(c0, [b'FLUSHALL']); s0.close(c0)
+    B = lambda *a: [x if isinstance(x, bytes) else str(x).encode() for x in a]
+    batches = [
+        [B('MULTI'), B('SELECT', 4), B('SET', 'inside', 'four'), B('EXEC'), B('SET', 'after', 'four'), B('GET', 'inside'), B('DBSIZE')],
+        [B('SELECT', 2), B('SET', 'a', 'two'), B('SELECT', 3), B('SET', 'a', 'three'), B('MULTI'), B('SELECT', 2), B('APPEND', 'a', '!'), B('EXEC'), B('GET', 'a'), B('SELECT', 3), B('GET', 'a')],
+        [B('SELECT', 6), B('MULTI'), B('SELECT', 7), B('SET', 'x', 'seven'), B('DISCARD'), B('SET', 'x', 'six'), B('DBSIZE')],
+        [B('MULTI'), B('SELECT', 99), B('SET', 'y', 'zero'), B('SELECT', 5), B('SET', 'y', 'five'), B('EXEC'), B('RPUSH', 'l', 'five'), B('SELECT', 0), B('EXISTS', 'y', 'l')],
+        [B('SELECT', 8), B('LPUSH', 'e', 'eight'), B('MULTI'), B('SELECT', 9), B('LPUSH', 'e', 'nine'), B('FLUSHDB'), B('SELECT', 8), B('EXEC'), B('LRANGE', 'e', 0, -1), B('DBSIZE')],
+        [B('SELECT', 1), B('WATCH', 'w'), B('MULTI'), B('SELECT', 2), B('SET', 'w', 'two'), B('EXEC'), B('GET', 'w'), B('SELECT', 1), B('GET', 'w')],
+    ]
+    cid = 500
+    for reqs in batches:
+        data_len = sum(len(__import__('resp').enc_cmd(a)) for a in reqs)
+        for cuts in ([], [data_len // 2], [data_len - 9]):
+            cid += 1
+            c05.run_pipeline(ctx, srv, trp, cid, reqs, cuts)
+    sd = Session(srv, trp)
+    sd.next_id = 900
+    try:
+        c = sd.open()
+        for d in range(10):
+            sd.cmd(c, B('SELECT', d))
+            workloads.dump_db(sd, c)
+        sd.close(c)
+    except ServerDied:
+        pass
+    ctx.validate(trp, label='select-in-batches')
+    if not srv.alive():
+        srv.restart()
     # the forms catalogue in a non-zero database while another database holds the same key names, through every path
     tr = ctx.new_trace('forms')
     s = Session(srv, tr)
